@@ -183,6 +183,25 @@ impl<'a, 'ast> Visit<'ast> for Auto<'a> {
                 self.push(r, "", "R1-tracing");
                 return;
             }
+            syn::Stmt::Macro(m) if m.mac.path.is_ident("assert_eq") || m.mac.path.is_ident("assert_ne") || m.mac.path.is_ident("assert") => {
+                let keep = if m.mac.path.is_ident("assert") { 1 } else { 2 };
+                if let Ok(args) = m.mac.parse_body_with(syn::punctuated::Punctuated::<syn::Expr, syn::Token![,]>::parse_terminated) {
+                    if args.len() > keep {
+                        // delete from the end of the last kept argument to the end of the last argument
+                        let last_kept = self.src.range(&args[keep - 1]).1;
+                        let last = self.src.range(&args[args.len() - 1]).1;
+                        // also swallow a trailing comma if present
+                        let mut end = last;
+                        let rest = &self.src.text[last..];
+                        let trimmed = rest.trim_start();
+                        if trimmed.starts_with(',') {
+                            end = last + (rest.len() - trimmed.len()) + 1;
+                        }
+                        self.push((last_kept, end), "", "R15-assert-msg");
+                    }
+                }
+                return;
+            }
             syn::Stmt::Item(syn::Item::Use(u)) => {
                 // `use crate::...;` inside a body: redundant after flattening
                 let t = self.src.slice(self.src.range(u)).to_string();
@@ -574,6 +593,11 @@ fn fn_edits(src: &Src, take: &Take, sig: &syn::Signature, block: &syn::Block, fn
                 if !buf.is_empty() {
                     edits.push(Edit { start: li.body_open, end: li.body_open, text: buf, rule: "loop-invariant", label: Some(format!("{}::{}", fname, curl)), prio: 1 });
                 }
+            }
+            Sub::LoopStart(n, text) => {
+                let li = idx.loops.get(n - 1).ok_or(format!("{}: loop #{} not found (function has {} loops)", fname, n, idx.loops.len()))?;
+                let p = li.body_open + 1;
+                edits.push(Edit { start: p, end: p, text: format!("\n{}\n", text.trim_end()), rule: "proof-hint", label: Some(format!("{}::hint", fname)), prio: 1 });
             }
             Sub::Closure(n, hdr, text) => {
                 let c = idx.closures.get(n - 1).ok_or(format!("{}: closure #{} not found (function has {} closures)", fname, n, idx.closures.len()))?;
